@@ -131,7 +131,7 @@ type Failure struct {
 	Finding string   // id of the known finding class it belongs to, "" if none
 }
 
-var driverPath = envOr("GLUADRV", "/verif/lean/.lake/build/bin/gluadrv")
+var driverPath = envOr("GLUADRV", verifRoot()+"/lean/.lake/build/bin/gluadrv")
 
 func envOr(k, d string) string {
 	if v := os.Getenv(k); v != "" {
